@@ -47,7 +47,7 @@ MANIFEST = dict(
          'correspondence), the real Tokenizer as lexer of the line correspondences, CPython.',
 )
 
-IMPORTS = ['Coq.NArith.NArith', 'Coq.Lists.List', 'Coq.Strings.String', 'Coq.Bool.Bool', 'Coq.Arith.Arith', 'SV.Fmt.LongString', 'SV.Fmt.FgdBin', 'SV.Fmt.FgdBinEnt', 'SV.Fmt.FgdLine', 'SV.SM.LazyDb',
+IMPORTS = ['Coq.NArith.NArith', 'Coq.Lists.List', 'Coq.Strings.String', 'Coq.Bool.Bool', 'Coq.Arith.Arith', 'SV.Fmt.LongString', 'SV.Fmt.FgdBin', 'SV.Fmt.FgdBinEnt', 'SV.Fmt.FgdLine', 'SV.Fmt.FgdBody', 'SV.SM.LazyDb',
            'SV.Gen.FgdConsts_gen', 'SV.Props.C16']
 PRE = '''Import ListNotations. Open Scope bool_scope. Open Scope N_scope. Open Scope list_scope.
 Fixpoint bad_idx {A} (f : A -> bool) (n : N) (l : list A) : list N :=
@@ -453,6 +453,14 @@ Definition IT (custom : bool) (o : ioline N) := io_toks N io_text custom o.
 Definition IP (ts : list tok) := io_parse tag_norm tags_valid N io_lookup ts.
 Definition RT (res : option (list (N * list N * list (list N)))) := res_toks gen_line_cfg N rt_text true res.
 Definition RR (ts : list tok) := res_read tag_norm tags_valid N rt_lookup ts.
+Definition BT (label custom : bool) (items : list (nat * item N)) (res : option (list (N * list N * list (list N)))) :=
+  body_toks N vt_text is_bool is_flags io_text decf gen_line_cfg N rt_text label custom items res.
+Definition BR (ts : list tok) := body_read tag_norm tags_valid N vt_lookup is_bool is_flags is_choices io_lookup decf undec pow2 N rt_lookup ts.
+Definition res_eqb (a b : option (list (N * list N * list (list N)))) : bool :=
+  match a, b with None, None => true | Some x, Some y => list_eqb ritem_eqb x y | _, _ => false end.
+Definition body_eqb (a b : body N N) : bool :=
+  list_eqb kvl_eqb (b_kvs N N a) (b_kvs N N b) && list_eqb iol_eqb (b_ins N N a) (b_ins N N b)
+  && list_eqb iol_eqb (b_outs N N a) (b_outs N N b) && res_eqb (b_res N N a) (b_res N N b).
 (* writer cases: 0 = agree *)
 Definition wcase {X} (f : X -> list tok) (c : X * list tok) : N := if list_eqb tok_eqb (f (fst c)) (snd c) then 0 else 1.
 (* parser cases: expected None = the implementation raises; Some (value, number of tokens left) *)
@@ -840,6 +848,78 @@ def corr_lines(ck: Ck) -> None:
                 want = 'None'
             p_res.append((b2, want))
             ck.count('corr_lines_resources_parse')
+    # ---- whole entity bodies: several keyvalue lines (tagged variants of one key too), inputs, outputs, resources
+    w_body, p_body = [], []
+    iolit = lambda o_, tg, secs: 'mk_iol N %s %s %d %s' % (coq_s(o_.name), coq_secs(sorted(tg)), lt.vt_index[o_.type], coq_secs(secs(o_.desc)))   # noqa: E731
+    for i in range(ck.budget(16, 120)):
+        plain = i % 3 == 2
+        custom, label = not plain, rng.random() < 0.5
+        e = EntityDef(EntityTypes.POINT, 'c16_ent')
+        items = []
+        secs = lambda x, custom=custom: text_sections(x, custom)   # noqa: E731
+        for name in rng.sample(KV_NAMES, rng.randint(0, 4)):
+            for tags in ([frozenset()] if plain or rng.random() < 0.7 else rng.sample(TAGSETS, 2)):
+                kv, _ = gen_line_kv(rng, plain)
+                kv.name = name
+                if kv.type is ValueTypes.SPAWNFLAGS:
+                    kv.disp_name = name
+                e.keyvalues.setdefault(name.casefold(), {})[tags] = kv
+
+                def lsecs(v: int, n: str, custom=custom, label=label) -> list[str]:
+                    if not label:
+                        return text_sections(n, custom, '\t\t')
+                    s_ = text_sections(f'[{v}] {n}', custom, '\t\t')
+                    pre = f'[{v}] '
+                    return [s_[0][len(pre):]] + s_[1:] if s_ and s_[0].startswith(pre) else ['<label split>']
+                items.append('(0%%nat, IKv N (%s))' % kv_line_literal(lt, kv, tags, secs, lambda x: text_sections(x, False, '\t\t'), lsecs))
+            e.kv_order.append(name.casefold())
+        for cat, pre_, ctor in (('inputs', 'In', 'IIn'), ('outputs', 'On', 'IOut')):
+            first = True
+            for j in range(rng.choice([0, 1, 2])):
+                typ = rng.choice(list(ValueTypes))
+                if typ.has_list:
+                    typ = ValueTypes.VOID
+                o = IODef(f'{pre_}Fire{j}', typ, gen_line_text(rng, rng.choice(['empty', 'short', 'special']), plain))
+                tags = frozenset() if plain else rng.choice(TAGSETS)
+                getattr(e, cat)[o.name.casefold()] = {tags: o}
+                items.append('(%d%%nat, %s N (%s))' % (2 if first else 0, ctor, iolit(o, tags, secs)))
+                first = False
+        res = None if rng.random() < 0.3 else [Resource(rng.choice(['models/a.mdl', 'Weapon.Fire']), rng.choice(restypes), rng.choice(TAGSETS))
+                                               for _ in range(rng.randint(0, 2))]
+        if res is not None:
+            e.resources = res
+        buf = io.StringIO()
+        e.export(buf, label, custom)
+        toks = fgd_tokens(buf.getvalue())
+        body = toks[6:-1]          # after `@PointClass = name NEWLINE [ NEWLINE`, without the NEWLINE after the closing bracket
+        lt.note(body)
+        w_body.append(('(%s, %s, %s, %s)' % (coq_bool(label), coq_bool(custom), coq_list(items), rlit(res)), body))
+        ck.count('corr_lines_bodies')
+        ck.seen(('linebody', buf.getvalue()))
+        for mut in (False, True):
+            b2 = list(body)
+            if mut and len(b2) > 2:
+                b2.insert(rng.randrange(len(b2)), (T.NEWLINE, '\n'))
+            tk = IterTokenizer(iter(toks[:6] + b2), 'c16', F.FGDParseError)
+            fgd = F.FGD()
+            try:
+                tk()
+                EntityDef.parse(fgd, tk, EntityTypes.POINT)
+                ent = fgd.entities['c16_ent']
+                left = 0
+                while tk()[0] is not T.EOF:
+                    left += 1
+                kvl = [kv_line_literal(lt, kv, tg, one, one) for tm in ent.keyvalues.values() for tg, kv in tm.items()]
+                if any(not isinstance(kv.type, ValueTypes) for tm in ent.keyvalues.values() for kv in tm.values()):
+                    continue
+                want = 'Some (mk_body N N %s %s %s (%s), %d)' % (
+                    coq_list(kvl), coq_list(iolit(o_, tg, one) for tm in ent.inputs.values() for tg, o_ in tm.items()),
+                    coq_list(iolit(o_, tg, one) for tm in ent.outputs.values() for tg, o_ in tm.items()),
+                    rlit(None if ent.resources == () else list(ent.resources)), left)
+            except Exception:   # noqa: BLE001
+                want = 'None'
+            p_body.append((b2, want))
+            ck.count('corr_lines_bodies_parse')
     tl = lambda ts: coq_list(coq_tok(t, v) for t, v in ts)   # noqa: E731
     exprs = [
         'map (wcase (fun c : bool * bool * kvline N => let \'(l, cu, k) := c in KT l cu k)) ' + coq_list('(%s, %s)' % (a, tl(ts)) for a, ts in w_kv),
@@ -854,18 +934,22 @@ def corr_lines(ck: Ck) -> None:
         'match r, w with None, None => 0 | Some a, Some b => if list_eqb ritem_eqb a b then 0 else 1 | _, _ => 1 end | _ => 4 end '
         '| None, None => 0 | Some (_, rest), None => match skip_nl rest with [TBrClose] | [TBrClose; TNl] => 2 | _ => 4 end | None, Some _ => 3 end) '
         + coq_list('(%s, %s)' % (tl(ts), w) for ts, w in p_res),
+        'map (wcase (fun c : bool * bool * list (nat * item N) * option (list (N * list N * list (list N))) => '
+        'let \'(l, cu, its, r) := c in BT l cu its r)) ' + coq_list('(%s, %s)' % (a, tl(ts)) for a, ts in w_body),
+        'map (fun c : list tok * option (body N N * N) => pcase body_eqb (BR (fst c)) (snd c)) ' + coq_list('(%s, %s)' % (tl(ts), w) for ts, w in p_body),
     ]
     vals = ck.coq_eval(IMPORTS, exprs, name='lines', preamble=PRE + lt.preamble(), timeout=900)
-    names = ['KVDef.export', 'KVDef._parse', 'IODef.export', 'IODef._parse', 'EntityDef.export @resources', 'EntityDef.parse @resources']
+    names = ['KVDef.export', 'KVDef._parse', 'IODef.export', 'IODef._parse', 'EntityDef.export @resources', 'EntityDef.parse @resources',
+             'EntityDef.export body', 'EntityDef.parse body']
     if vals is None:
         ck.obligation('correspondence:text_lines_writers', False, 'model could not be evaluated')
         ck.tie_broken.append('correspondence text lines: model evaluation failed')
         return
     codes = [parse_coq_N_list(v) for v in vals]
-    data = [w_kv, p_kv, w_io, p_io, w_res, p_res]
+    data = [w_kv, p_kv, w_io, p_io, w_res, p_res, w_body, p_body]
     bad = {nm: [i for i, c in enumerate(cs) if c not in (0, 4)] for nm, cs in zip(names, codes)}
     relaxed = sum(1 for cs in codes for c in cs if c == 4)
-    for kind, idxs in (('writers', (0, 2, 4)), ('readers', (1, 3, 5))):
+    for kind, idxs in (('writers', (0, 2, 4, 6)), ('readers', (1, 3, 5, 7))):
         nbad = sum(len(bad[names[i]]) for i in idxs)
         ck.obligation(f'correspondence:text_lines_{kind}', nbad == 0,
                       ', '.join(f'{names[i]}: {len(codes[i])} cases, {len(bad[names[i]])} disagreements' for i in idxs)
@@ -1920,7 +2004,6 @@ def run(ck: Ck) -> None:
                                          '&& bool_default_filled gen_line_cfg && res_block_if_defined gen_line_cfg)',
             'text_empty_resources_need_the_block': 'empty_resources_need_block',
             'lazy_bases_resolved_through_get_ent': 'lazy_via_get_ent',
-            'lazy_block_marked_before_bases_loop': 'lazy_mark_before_resolve',
             'lazy_map_lookup_is_refuted': 'map_lookup_breaks',
         }, name='c16')
         data_obligations(ck, data, tb)
@@ -1930,7 +2013,15 @@ def run(ck: Ck) -> None:
         corr_binary_records(ck, data, tb)
         line_data_obligations(ck)
         corr_lines(ck)
-        corr_lazy(ck, data, tb, bool(side.get('engine_db', {}).get('lazy', {}).get('via_get_ent', True)))
+        lazy_side = side.get('engine_db', {}).get('lazy', {})
+        corr_lazy(ck, data, tb, bool(lazy_side.get('via_get_ent', True)))
+        # Information only: the model marks a block as decoded before its bases loop, as the source does today.  Marking it
+        # afterwards is observably the same (ent_map already holds the block's definitions, so no look-up re-enters the block):
+        # no obligation, the lazy budgets are raised instead.
+        ck.extra['lazy_block_marked_before_bases_loop'] = bool(lazy_side.get('mark_before_resolve', True) and lazy_side.get('mark_after_decode', True))
+        if not ck.extra['lazy_block_marked_before_bases_loop']:
+            ck.notes.append('_parse_block no longer marks the block as decoded between the decoding loop and the bases loop: lazy budgets raised')
+            ck.tie_broken.append('shape of _parse_block changed (mark position): budgets raised, no obligation')
         # informational: duplicates in the order lists (harmless, see c16_order_roundtrip)
         vo = side.get('engine_db', {}).get('vt_order', [])
         ck.extra['value_type_order_duplicates'] = sorted({x for x in vo if vo.count(x) > 1})
@@ -1965,6 +2056,14 @@ def run(ck: Ck) -> None:
         ck.explain('instance:text_bool_')
         ck.explain('instance:text_line_cfg_ok_is_these')
         ck.explain('correspondence:text_lines_')
+    # a translator that failed closed at a site is explained by a concrete violation of the mechanism that site belongs to
+    site_of = (('EngineDB', 'lazy-'), ('_parse_block', 'lazy-'), ('get_fgd', 'lazy-'), ('serialise', 'binary-'), ('BinStrDict', 'binary-'),
+               ('_write_longstring', 'longstring:'), ('_fgd_escape', 'longstring:'), ('ESCAPE', 'longstring:'),
+               ('KVDef.export', 'generated-fgd'), ('IODef.export', 'generated-fgd'), ('EntityDef.export', 'generated-fgd'))
+    for tie in ck.tie_broken:
+        if tie.startswith('translator '):
+            if any(word in tie and any(k.startswith(pref) for k in keys) for word, pref in site_of):
+                ck.explain('translate:')
     if any(k.startswith('lazy-') for k in keys):
         ck.explain('correspondence:lazy_db')
         ck.explain('instance:lazy_')
